@@ -40,6 +40,7 @@ Definition buf_obs_eqb (a b : buf_obs) : bool :=
 
 (** Monitor: the property read off one observed buffer history. *)
 Fixpoint steps_ok (maxb maxm : N) (chunks : list str) (os : list wobs) (accepted_total : N) (acc : str)
+         (rejected_before : bool)
   : bool * str * bool :=   (* ok, accepted bytes, any rejected *)
   match chunks, os with
   | [], [] => (true, acc, false)
@@ -54,14 +55,16 @@ Fixpoint steps_ok (maxb maxm : N) (chunks : list str) (os : list wobs) (accepted
       && (match wo_err o with WOk | WMaxExceeded => true | _ => false end)
       && (match wo_err o with WMaxExceeded => wo_over o && (0 <? maxb) && (maxb <? accepted_total + lenN p)
                             | _ => true end)                    (* rejected only when it would exceed *)
+      && (negb rejected_before || wo_over o)                    (* an overflow is never forgotten *)
     in
-    let '(ok, a, rej) := steps_ok maxb maxm cs os' tot acc' in
+    let rej_now := rejected_before || match wo_err o with WOk => false | _ => true end in
+    let '(ok, a, rej) := steps_ok maxb maxm cs os' tot acc' rej_now in
     (here && ok, a, rej || match wo_err o with WOk => false | _ => true end)
   | _, _ => (false, acc, false)
   end.
 
 Definition buf_monitor (maxb maxm : N) (chunks : list str) (o : buf_obs) : bool :=
-  let '(ok, acc, rej) := steps_ok maxb maxm chunks (bo_steps o) 0 [] in
+  let '(ok, acc, rej) := steps_ok maxb maxm chunks (bo_steps o) 0 [] false in
   ok && str_eqb (bo_sent o) acc
   && (rej || str_eqb (bo_sent o) (concat chunks))
   && listN_eqb (bo_after_close o) [] && listN_eqb (bo_after_close2 o) [].
@@ -151,17 +154,37 @@ Definition http_monitor (i : http_in) (o : http_obs) : bool :=
     else true in
   req_ok && resp_ok && listN_eqb (ho_files_after o) [].
 
+(** Pattern bodies for large cases: [pat start len] is the byte sequence
+    (start + i) mod 251 for i < len, generated identically by the harness. *)
+Fixpoint pat_aux (cur : N) (n : nat) : str :=
+  match n with
+  | O => []
+  | S n' => (match Byte.of_N cur with Some b => b | None => x00 end)
+            :: pat_aux (if cur + 1 =? 251 then 0 else cur + 1) n'
+  end.
+Definition pat (start len : N) : str := pat_aux (start mod 251) (N.to_nat len).
+
 (** ** Cases and verdicts *)
 
 Inductive c14_case :=
 | CaseBuf (maxb maxm : N) (chunks : list str) (o : buf_obs)
-| CaseHttp (i : http_in) (o : http_obs).
+| CaseHttp (i : http_in) (o : http_obs)
+(* a buffered response torn down after it spilled (target drops the connection / client goes away):
+   [during] = spill files seen while the exchange was open, [after] = once the handler has unwound *)
+| CaseAbort (maxm pre : N) (during after : list N).
 
 (** (agrees with the model, satisfies the monitor) *)
 Definition check_case (c : c14_case) : bool * bool :=
   match c with
   | CaseBuf maxb maxm chunks o => (buf_obs_eqb (model_buf maxb maxm chunks) o, buf_monitor maxb maxm chunks o)
   | CaseHttp i o => (http_agree i o, http_monitor i o)
+  | CaseAbort maxm pre during after =>
+    (* model: the middleware's deferred Close runs on every path (resp_mw ends in close): nothing is left;
+       while open, the spill holds the bytes beyond the memory limit *)
+    let b := fst (writes (new_buf 0 maxm) [pat 0 pre]) in
+    (* ([during] is sampled while the copy may still be running: only bounded, not compared) *)
+    (listN_eqb after (files_of (close b)),
+     listN_eqb after [] && forallb (fun d => d <=? disk_written b) during && (length during <=? 1)%nat)
   end.
 
 Fixpoint failures_aux (cs : list c14_case) (n : nat) : list (nat * bool * bool) :=
@@ -173,12 +196,3 @@ Fixpoint failures_aux (cs : list c14_case) (n : nat) : list (nat * bool * bool) 
   end.
 Definition failures (cs : list c14_case) := failures_aux cs 0.
 
-(** Pattern bodies for large cases: [pat start len] is the byte sequence
-    (start + i) mod 251 for i < len, generated identically by the harness. *)
-Fixpoint pat_aux (cur : N) (n : nat) : str :=
-  match n with
-  | O => []
-  | S n' => (match Byte.of_N cur with Some b => b | None => x00 end)
-            :: pat_aux (if cur + 1 =? 251 then 0 else cur + 1) n'
-  end.
-Definition pat (start len : N) : str := pat_aux (start mod 251) (N.to_nat len).
